@@ -19,7 +19,7 @@ enum { OP_FRAME = 3, OP_FRAMEDEC = 4, OP_GENFUNC = 5, OP_FRAMETRACE = 12 };
 enum { K_STREAM = 0, K_COMPRESSFRAME = 1, K_COMPRESSFRAME_CDICT = 2 };
 enum { DK_NONE = 0, DK_DICT = 1, DK_CDICT = 2 };
 
-static u64 n_linked_model_frames, n_linked_reused, n_indep_reused, n_oneshot_linked; static u64 n_reused_differs, n_dict_derived, n_forged_size, n_headers, n_model_frames; static u64 n_calls, n_frames, n_decodes, n_switch, n_flush, n_uncomp, n_volatile, n_dec_ok, n_dec_err, n_dec_incomplete;
+static u64 n_linked_dict; static u64 n_linked_model_frames, n_linked_reused, n_indep_reused, n_oneshot_linked; static u64 n_reused_differs, n_dict_derived, n_forged_size, n_headers, n_model_frames; static u64 n_calls, n_frames, n_decodes, n_switch, n_flush, n_uncomp, n_volatile, n_dec_ok, n_dec_err, n_dec_incomplete;
 static u8* g_dictbuf;   /* 70000 bytes, blob 1 */
 static u8 g_ops[1 << 16]; static size_t g_nops;   /* call history of the current streaming session: 'U'/'u' + u32 size, 'F' */
 static void op_rec(int code, size_t n) { if (g_nops + 5 <= sizeof g_ops) { g_ops[g_nops++] = (u8)code; if (code != 'F') { u32 v = (u32)n; memcpy(g_ops + g_nops, &v, 4); g_nops += 4; } } else g_nops = sizeof g_ops + 1; }
@@ -350,7 +350,7 @@ static void linked_model_frames(u8* data, int thorough)
             int nm = thorough ? SH(800) : 120;
             for (i = 0; i < nm; i++) {
                 static const int fastLevels[] = {0, 0, 1, -1, -3, -100, 1};
-                size_t n = rndp(50) ? rndn(3000) : rndp(70) ? rndn(140000) : rndn(280000); LZ4F_preferences_t prefs = rand_prefs(n); LZ4F_cctx* fresh = NULL; vec_t out; rec_t r; int rc;
+                size_t n = rndp(50) ? rndn(3000) : rndp(70) ? rndn(140000) : rndn(280000); LZ4F_preferences_t prefs = rand_prefs(n); LZ4F_cctx* fresh = NULL; vec_t out; rec_t r; int rc; int dk = DK_NONE; size_t dsz = 0; LZ4F_CDict* cd = NULL;
                 memset(&out, 0, sizeof out);
                 prefs.frameInfo.blockMode = LZ4F_blockLinked; prefs.compressionLevel = fastLevels[rndn(7)]; if (n > 200000 && prefs.frameInfo.blockSizeID > 5) prefs.frameInfo.blockSizeID = LZ4F_max256KB; if (rndp(55)) prefs.frameInfo.blockSizeID = LZ4F_max64KB;   /* many blocks */
                 gen_data(data, n, rndp(25) ? D_RANDOM : (int)rndn(D_KINDS));
@@ -359,10 +359,16 @@ static void linked_model_frames(u8* data, int thorough)
                     int q, nq = 1 + (int)rndn(3); for (q = 0; q < nq; q++) { static const int lv[] = {0, 1, -2, 0, 3, 9}; size_t jn = rndp(50) ? rndn(5000) : rndn(150000); LZ4F_preferences_t jp = rand_prefs(jn); vec_t junk; memset(&junk, 0, sizeof junk);
                         jp.compressionLevel = lv[rndn(6)]; gen_data(data, jn, (int)rndn(D_KINDS)); make_frame_stream(fresh, &jp, data, jn, DK_NONE, 0, NULL, &junk, 0); free(junk.p); }
                     gen_data(data, n, rndp(25) ? D_RANDOM : (int)rndn(D_KINDS)); n_linked_reused++; }
-                rec_begin(&r, OP_FRAME); rec_int(&r, 6); rec_prefs(&r, &prefs); rec_int(&r, 0); rec_int(&r, DK_NONE); rec_bytes(&r, data, n); rec_bytes(&r, NULL, 0); cur_set(&r);
+                /* a third of these frames use a dictionary: a CDict (the prepared stream is attached; with independent blocks before EVERY block) or a raw
+                 * dictionary (loaded into the working stream); the content quotes it */
+                if (rndp(35) && n >= 64) { size_t q, nq = 1 + rndn(12); dk = rndp(65) ? DK_CDICT : DK_DICT; dsz = rndp(50) ? 64 + rndn(2000) : rndp(50) ? 64 + rndn(69000) : 70000;
+                    for (q = 0; q < nq; q++) { size_t l = 8 + rndn(200), from = rndn((u32)dsz), to; if (l > n) l = n; if (from + l > dsz) l = dsz - from; to = rndn((u32)(n - l + 1)); memcpy(data + to, g_dictbuf + (70000 - dsz) + from, l); }
+                    if (dk == DK_CDICT) { cd = LZ4F_createCDict(g_dictbuf + (70000 - dsz), dsz); if (rndp(50)) prefs.frameInfo.blockMode = LZ4F_blockIndependent; }
+                    n_dict_derived++; n_linked_dict++; }
+                rec_begin(&r, OP_FRAME); rec_int(&r, 6); rec_prefs(&r, &prefs); rec_int(&r, (long long)dsz); rec_int(&r, dk); rec_bytes(&r, data, n); rec_bytes(&r, NULL, 0); cur_set(&r);
                 g_life_n = 0; g_life_init_n = 0; g_life_on = 1;
-                g_no_uncompressed = 1; rc = make_frame_stream(fresh, &prefs, data, n, DK_NONE, 0, NULL, &out, 0); g_no_uncompressed = 0;
-                g_life_on = 0;
+                g_no_uncompressed = 1; rc = make_frame_stream(fresh, &prefs, data, n, dk, dsz, cd, &out, 0); g_no_uncompressed = 0;
+                g_life_on = 0; if (cd) LZ4F_freeCDict(cd);
                 if (rc) { char why[48]; snprintf(why, sizeof why, "compression_call_failed_%d", rc); c_fail(&r, why); }
                 else { r.n -= 1; rec_bytes(&r, out.p, out.n); rec_bytes(&r, g_life, g_life_n); rec_bytes(&r, g_life_init, g_life_init_n); n_frames++; n_linked_model_frames++; }
                 cur_clear(); rec_write(&r); free(out.p); LZ4F_freeCompressionContext(fresh);
@@ -730,7 +736,7 @@ int main(int argc, char** argv)
 
     LZ4F_freeCompressionContext(cctx); LZ4F_freeDecompressionContext(dctx);
     harness_done();
-    stat_u("calls", n_calls); stat_u("reused_cctx_bytes_differ_from_fresh", n_reused_differs); stat_u("dictionary_derived_contents", n_dict_derived); stat_u("forged_content_sizes", n_forged_size); stat_u("headers_alone", n_headers); stat_u("frames_for_end_to_end_model", n_model_frames); stat_u("linked_frames_for_end_to_end_model", n_linked_model_frames); stat_u("linked_frames_on_reused_contexts", n_linked_reused); stat_u("independent_frames_on_reused_contexts", n_indep_reused); stat_u("compressFrame_linked_frames_for_end_to_end_model", n_oneshot_linked); stat_u("linked_frames_blocks_logged", g_life_blocks); stat_u("linked_frames_saveDict_logged", g_life_saves); stat_u("frames", n_frames); stat_u("decodes", n_decodes); stat_u("flushes", n_flush); stat_u("uncompressed_updates", n_uncomp); stat_u("volatile_sources", n_volatile);
+    stat_u("calls", n_calls); stat_u("reused_cctx_bytes_differ_from_fresh", n_reused_differs); stat_u("dictionary_derived_contents", n_dict_derived); stat_u("forged_content_sizes", n_forged_size); stat_u("headers_alone", n_headers); stat_u("frames_for_end_to_end_model", n_model_frames); stat_u("linked_frames_for_end_to_end_model", n_linked_model_frames); stat_u("linked_frames_on_reused_contexts", n_linked_reused); stat_u("model_frames_with_dictionary", n_linked_dict); stat_u("independent_frames_on_reused_contexts", n_indep_reused); stat_u("compressFrame_linked_frames_for_end_to_end_model", n_oneshot_linked); stat_u("linked_frames_blocks_logged", g_life_blocks); stat_u("linked_frames_saveDict_logged", g_life_saves); stat_u("frames", n_frames); stat_u("decodes", n_decodes); stat_u("flushes", n_flush); stat_u("uncompressed_updates", n_uncomp); stat_u("volatile_sources", n_volatile);
     stat_u("mode_switches_with_buffered_data", n_switch); stat_u("dec_complete", n_dec_ok); stat_u("dec_error", n_dec_err); stat_u("dec_incomplete", n_dec_incomplete); stat_u("records", g_nrecords); stat_u("bytes_decoded_into_one_contiguous_buffer", n_big_bytes); stat_u("dstage_traces", n_traces); stat_u("dstage_traced_calls", n_trace_calls);
     stat_u("cfails", (u64)g_cfails);
     free(data); free(g_dictbuf);
